@@ -221,6 +221,14 @@ func widePrograms() []*gen.Node {
 	ml := gen.LongStr("line1\nline2\n   line3 indented\n\tline4 tab", "")
 	mlCond := gen.Infix(gen.Infix(gen.Infix(gen.Ident("req.http.Aaaaaaaaaaaaaaaaaaaaaaaaaaaaaaaaaaaaaaaaaaaa"), "==", gen.Str("xxxxxxxxxxxxxxxxxxxxxxxxxxxxxxxxxxxxxxxx")), "&&", gen.Infix(gen.Ident("req.http.B"), "==", ml)), "&&", gen.Infix(gen.Ident("req.http.Cccccccccccccccccccccccccccccccccccccc"), "~", gen.Str("^/some/long/path/prefix/that/forces/wrapping")))
 	mlCat := gen.Concat(gen.Concat(gen.Str("aaaaaaaaaaaaaaaaaaaaaaaaaaaaaaaaaaaaaaaaaaaaaaaaaaaaaaaaaaaa"), true, ml.Clone()), true, gen.Str("bbbbbbbbbbbbbbbbbbbbbbbbbbbbbbbbbbbbbbbbbbbbbbbbbbbbbbbbbbbbbbbbbbbbbbbbbb"))
+	// two long strings on one line of the condition: one closed on the line, the next one continuing below it (and the reverse)
+	ml2 := gen.LongStr("second\n      literal\n  end", "")
+	twoA := gen.Infix(gen.Infix(gen.Infix(gen.Ident("req.http.Aaaaaaaaaaaaaaaaaaaaaaaaaaaaaaaaaaaaaaaaaaaa"), "==", gen.Str("xxxxxxxxxxxxxxxxxxxxxxxxxxxxxxxxxxxxxxxx")), "&&", gen.Infix(gen.Ident("req.http.B"), "==", gen.Concat(gen.LongStr("<pre>", ""), false, ml.Clone()))), "&&", gen.Infix(gen.Ident("req.http.Cccccccccccccccccccccccccccccccccccccc"), "~", gen.Str("^/some/long/path/prefix/that/forces/wrapping")))
+	twoB := gen.Infix(gen.Infix(gen.Infix(gen.Ident("req.http.Aaaaaaaaaaaaaaaaaaaaaaaaaaaaaaaaaaaaaaaaaaaa"), "==", gen.Str("xxxxxxxxxxxxxxxxxxxxxxxxxxxxxxxxxxxxxxxx")), "&&", gen.Infix(gen.Ident("req.http.B"), "==", gen.Concat(gen.Concat(ml.Clone(), false, ml2), false, gen.LongStr("</pre>", "")))), "&&", gen.Infix(gen.Ident("req.http.Cccccccccccccccccccccccccccccccccccccc"), "~", gen.Str("^/some/long/path/prefix/that/forces/wrapping")))
+	sweeps = append(sweeps,
+		gen.VCL(gen.Sub("vcl_recv", gen.If(twoA, gen.N("EsiStatement")))),
+		gen.VCL(gen.Sub("vcl_recv", gen.If(twoB, gen.N("EsiStatement")))),
+	)
 	ifs2 := gen.If(gen.Ident("req.http.A"), gen.N("EsiStatement"))
 	ifs2.Set("Another", []*gen.Node{gen.ElseIf("else if", mlCond.Clone(), gen.N("EsiStatement"))})
 	sweeps = append(sweeps,
@@ -433,6 +441,18 @@ func Gen(tier string, emit func(Case)) {
 			allDecos = append(allDecos, gen.Deco{Index: s.idx, Text: commentText(n%3, n+1), Role: s.slot.Role})
 		}
 		emitDeco(allDecos, "all-slots:"+kind)
+		// the same with an empty line before and after every comment that sits on a line of its own
+		var allBlank []gen.Deco
+		for n, s := range slots {
+			cm := gen.Deco{Index: s.idx, Text: commentText(n%3, n+1), Role: s.slot.Role}
+			if s.slot.Role == "leading" {
+				bl := gen.Deco{Index: s.idx, Text: "\n\n", Role: "raw"}
+				allBlank = append(allBlank, bl, cm, bl)
+			} else {
+				allBlank = append(allBlank, cm)
+			}
+		}
+		emitDeco(allBlank, "all-slots-blank:"+kind)
 	})
 	// (3) example files
 	for _, f := range corpus() {
